@@ -697,6 +697,93 @@ def _split_conversion_handler(excname: str, hbody: List[ast.stmt]) -> Optional[L
     return out
 
 
+# ---------------------------------------------------------------------------------------------------------- functional idioms
+def _callable_kind(e: ast.expr):
+    """('partial', func, args, keywords) / ('methodcaller', name, args, keywords) for functools.partial(...) / operator.methodcaller(...)"""
+    if isinstance(e, ast.Call):
+        fn_name = ast.unparse(e.func).split(".")[-1]
+        if fn_name == "partial" and e.args and not any(isinstance(a, ast.Starred) for a in e.args) and not any(k.arg is None for k in e.keywords):
+            return ("partial", e.args[0], list(e.args[1:]), list(e.keywords))
+        if fn_name == "methodcaller" and e.args and isinstance(e.args[0], ast.Constant) and isinstance(e.args[0].value, str) \
+                and not any(isinstance(a, ast.Starred) for a in e.args) and not any(k.arg is None for k in e.keywords):
+            return ("methodcaller", e.args[0].value, list(e.args[1:]), list(e.keywords))
+    return None
+
+
+def _apply_callable(kind, call_args: List[ast.expr], call_keywords: List[ast.keyword]) -> Optional[ast.expr]:
+    if kind[0] == "partial":
+        return ast.Call(func=copy.deepcopy(kind[1]), args=[copy.deepcopy(a) for a in kind[2]] + call_args,
+                        keywords=[copy.deepcopy(k) for k in kind[3]] + call_keywords)
+    if kind[0] == "methodcaller" and len(call_args) == 1 and not call_keywords:
+        return ast.Call(func=ast.Attribute(value=call_args[0], attr=kind[1], ctx=ast.Load()),
+                        args=[copy.deepcopy(a) for a in kind[2]], keywords=[copy.deepcopy(k) for k in kind[3]])
+    return None
+
+
+def _rewrite_functional(fn: ast.FunctionDef) -> int:
+    """map(f, xs) -> (f(x) for x in xs); functools.partial / operator.methodcaller objects applied (directly, through a local
+    bound once, or as the function of map) -> the call they stand for.  Returns the number of rewrites."""
+    # locals bound exactly once to a partial / methodcaller object and only ever called or handed to map()
+    assigned: Dict[str, int] = {}
+    for n in ast.walk(fn):
+        if isinstance(n, ast.Name) and isinstance(n.ctx, ast.Store):
+            assigned[n.id] = assigned.get(n.id, 0) + 1
+    aliases: Dict[str, tuple] = {}
+    for n in ast.walk(fn):
+        if isinstance(n, ast.Assign) and len(n.targets) == 1 and isinstance(n.targets[0], ast.Name) and assigned.get(n.targets[0].id) == 1:
+            k = _callable_kind(n.value)
+            if k is not None:
+                aliases[n.targets[0].id] = k
+    count = [0]
+    fresh = [0]
+
+    class T(ast.NodeTransformer):
+        def visit_FunctionDef(self, node):
+            if node is fn:
+                self.generic_visit(node)
+            return node
+
+        def visit_Call(self, node):
+            self.generic_visit(node)
+            f = node.func
+            # direct application of a partial / methodcaller object
+            k = aliases.get(f.id) if isinstance(f, ast.Name) else _callable_kind(f)
+            if k is not None and not any(isinstance(a, ast.Starred) for a in node.args):
+                new = _apply_callable(k, list(node.args), list(node.keywords))
+                if new is not None:
+                    count[0] += 1
+                    return ast.copy_location(new, node)
+            # map(f, xs)
+            if isinstance(f, ast.Name) and f.id == "map" and len(node.args) == 2 and not node.keywords:
+                func, it = node.args
+                fresh[0] += 1
+                var = "__map%d_%d" % (id(fn) % 9973, fresh[0])
+                elt = None
+                kk = aliases.get(func.id) if isinstance(func, ast.Name) else _callable_kind(func)
+                if kk is not None:
+                    elt = _apply_callable(kk, [ast.Name(id=var, ctx=ast.Load())], [])
+                elif isinstance(func, ast.Lambda) and len(func.args.args) == 1 and not func.args.vararg and not func.args.kwarg and not func.args.defaults:
+                    pname = func.args.args[0].arg
+
+                    class S(ast.NodeTransformer):
+                        def visit_Name(self, n2):
+                            if n2.id == pname:
+                                return ast.copy_location(ast.Name(id=var, ctx=n2.ctx), n2)
+                            return n2
+                    elt = S().visit(copy.deepcopy(func.body))
+                elif _plain_chain(func):
+                    elt = ast.Call(func=func, args=[ast.Name(id=var, ctx=ast.Load())], keywords=[])
+                if elt is not None:
+                    count[0] += 1
+                    gen = ast.GeneratorExp(elt=elt, generators=[ast.comprehension(target=ast.Name(id=var, ctx=ast.Store()), iter=it, ifs=[], is_async=0)])
+                    return ast.copy_location(gen, node)
+            return node
+    T().visit(fn)
+    if count[0]:
+        ast.fix_missing_locations(fn)
+    return count[0]
+
+
 def normalize_module_trees(modules: Dict[str, ast.Module]) -> List[str]:
     """Inline single-caller private helpers / closures in place. Returns a log of what was inlined."""
     log: List[str] = []
@@ -868,6 +955,11 @@ def normalize_module_trees(modules: Dict[str, ast.Module]) -> List[str]:
                         if isinstance(f, ast.Name) and f.id in class_defs and f.id not in KNOWN_CLASSES:
                             return class_defs[f.id]
                         return None
+                    if _pass == 0:
+                        nf = _rewrite_functional(fn)
+                        if nf:
+                            any_change = True
+                            log.append("%s.%s: %d functional idiom(s) spelled out" % (cls.name if cls else mn, fn.name, nf))
                     if _rewrite_withs(fn.body, find_cm_func, find_cm_class):
                         any_change = True
                         log.append("%s.%s: expanded new context manager(s)" % (cls.name if cls else mn, fn.name))
